@@ -33,6 +33,9 @@ type ReadScenario struct {
 	Reader string         `json:"reader"`
 	Data   []byte         `json:"data"`
 	Plan   simio.ReadPlan `json:"plan"`
+	// MustRun > 0: the document holds one line made of MustRun 'L' bytes that is content of a cue; a nil error is
+	// only acceptable with that text in the result (C18: an over-long line is reported, not dropped)
+	MustRun int `json:"must_run,omitempty"`
 }
 
 // EvalRead runs one reader call under a plan.
